@@ -725,7 +725,8 @@ Report execute(const Plan &plan_in, const Options &opt) {
 				// process-wide state the calls of the phase had to save and restore (signal dispositions): every call alone
 				// leaves it unchanged (checked above for calls that ran alone), so after any interleaving it must be unchanged
 				uint64_t now = seam::signal_dispositions();
-				if (now != rs.sig0) { viol("PROCESS_STATE_RACE", "signal dispositions after the concurrent phase differ from those before it (a save/install/restore sequence of the library was interleaved)", "", (int)pos); rs.sig0 = now; }
+				// (not in a cold history: a handler the library installs for good on first use would be installed inside the phase)
+				if (now != rs.sig0 && !rs.cold) { viol("PROCESS_STATE_RACE", "signal dispositions after the concurrent phase differ from those before it (a save/install/restore sequence of the library was interleaved)", "", (int)pos); rs.sig0 = now; }
 			}
 			rs.in_concurrent = false;
 		}
